@@ -12,11 +12,11 @@ use std::io::ErrorKind;
 pub static DEF: PropDef = PropDef {
     id: "C05",
     level: "exploration",
-    rule: "each case: one input (valid writer/reference output, truncated, 1-3 mutations, adversarial header catalogue entry — zero-length numerics, 9-byte numerics, 8-byte ids/sizes, all-ones sizes of every width on every element type, first byte 0x00 — random bytes, mid-document suffix) x a random configuration (8 tolerance subsets, buffered-master subset, capacity in {default,0,1,2,7,8,15,16,17,64,len-1,len,len+1}, size limit in {5,100,4096,1 MiB}, EOF closing on/off) x a scripted source (random short reads, poisoned buffer tails) x a random interleaving of next()/try_recover(). Every API call runs under catch_unwind with a logical step budget (hook H1) and a source read budget; item count must stay <= 2*len+2*depth+16; after the first None with the source exhausted 8 further calls must return None; total steps must stay within 256*(len+items+64). Then the same parse is repeated with an I/O error injected at a read index (every index for inputs <= 64 bytes in thorough): the first error seen must be ReadError carrying the injected kind and message, and the Ok items before it a prefix of the fault-free run. distinct = (input-kind class, first-error kind, config class, API-sequence class); non-trivial iff the input is not a plain valid document or the config is non-default.",
+    rule: "each case: one input (valid writer/reference output, truncated, 1-3 mutations, adversarial header catalogue entry — zero-length numerics, 9-byte numerics, 8-byte ids/sizes, all-ones sizes of every width on every element type, first byte 0x00 — random bytes, mid-document suffix) x a random configuration (8 tolerance subsets, buffered-master subset, capacity in {default,0,1,2,7,8,15,16,17,64,len-1,len,len+1}, size limit in {5,100,4096,1 MiB}, EOF closing on/off) x a scripted source (random short reads, poisoned buffer tails) x a random interleaving of next()/try_recover(). Every API call runs under catch_unwind with a logical step budget (hook H1) and a source read budget; item count must stay <= 2*len+2*depth+16; after the first None with the source exhausted 8 further calls must return None; total steps must stay within 256*(len+items+64). Then the same parse is repeated with an I/O error injected at a read index (every index for inputs <= 64 bytes in thorough): the first error seen must be ReadError carrying the injected kind and message, and the Ok items before it a prefix of the fault-free run. Four fixed probes per run parse, in a child process on a thread with a 256 KiB stack, very long runs (20 000 quick / 100 000 thorough) of sibling buffered masters (known and unknown size) and deep nestings (4 000 / 20 000 levels) of a self-nesting master (unbuffered, and inside a buffered root): input-controlled recursion shows up as a crash of the child. distinct = (input-kind class, first-error kind, config class, API-sequence class); non-trivial iff the input is not a plain valid document or the config is non-default.",
     assumptions: &["the default 4 GB size limit is only used with valid documents (a legitimate multi-GB allocation per worker would exhaust the machine); C17 covers the default limit with curated sizes", "`no hang` is decided as bounded logical progress (hook H1 ticks + source read budget); a pure-CPU loop without a tick would only trip the wall-clock watchdog (inconclusive)"],
     cases_quick: 20_000,
     cases_thorough: 1_000_000,
-    floors: &[("api_calls", 200_000), ("distinct_nontrivial", 300), ("fault_runs", 5_000), ("catalogue_headers_reached", 500), ("try_recover_calls", 5_000), ("fused_checks", 5_000)],
+    floors: &[("api_calls", 200_000), ("distinct_nontrivial", 300), ("fault_runs", 5_000), ("catalogue_headers_reached", 500), ("try_recover_calls", 5_000), ("fused_checks", 5_000), ("long_run_probes", 4)],
     exhaustive_note: Some("I/O-error injection at every read index for inputs of <= 64 bytes (thorough)"),
     run,
 };
@@ -94,7 +94,37 @@ fn sig_ctx(inp: &Input, cfg: &RCfg) -> String {
     format!("{}{}", k, match cfg.capacity { Some(c) if c < 16 => "/capacity<16", _ => "" })
 }
 
+fn run_long_probe(c: &mut Case, which: u64) {
+    // Run in a child process on a thread with a deliberately small stack (256 KiB): recursion whose depth is controlled
+    // by the input then shows up as a crash of the child instead of needing hundreds of thousands of elements.
+    let n = if which < 2 { c.tier.pick(20_000usize, 100_000) } else { c.tier.pick(4_000usize, 20_000) };
+    let (name, bytes, _buffered, expect_items) = long_run_probe(which, n);
+    let exe = std::env::current_exe().expect("current exe");
+    let out = std::process::Command::new(exe).args(["probe-deep", &which.to_string(), &n.to_string(), "256"]).output();
+    c.eval();
+    c.count("long_run_probes");
+    let wit = |msg: &str| J::obj().set("probe", J::s(name.clone())).set("byte_len", J::u(bytes.len())).set("bytes_head", J::hex(&bytes[..bytes.len().min(48)])).set("stack_of_parsing_thread", J::s("256 KiB")).set("reproduce", J::s(format!("vmon probe-deep {} {} 256", which, n))).set("problem", J::s(msg));
+    match out {
+        Err(e) => panic!("cannot spawn probe child: {}", e),
+        Ok(o) => {
+            let text = String::from_utf8_lossy(&o.stdout).to_string();
+            let err = String::from_utf8_lossy(&o.stderr).to_string();
+            if o.status.code() != Some(0) {
+                let how = if err.contains("overflowed its stack") || err.contains("stack overflow") { "stack-overflow" } else { "crash" };
+                c.violation(format!("C05/long-run/{}/{}", ["buffered-siblings-known", "buffered-siblings-unknown", "deep-nesting-unbuffered", "deep-nesting-in-buffered-master"][which as usize], how), format!("{}: the parsing process died ({:?}): {}", name, o.status, err.lines().last().unwrap_or("")), wit("process died while parsing"));
+            } else if !text.contains(&format!("items={}", expect_items)) {
+                c.violation(format!("C05/long-run/{}/wrong-item-count", which), format!("{}: expected {} items, child said: {}", name, expect_items, text.trim()), wit("wrong number of items"));
+            }
+        }
+    }
+    c.nontrivial(mix(hash_str("long-run"), which));
+}
+
 fn run(c: &mut Case) {
+    if c.idx < 4 {
+        run_long_probe(c, c.idx);
+        return;
+    }
     let inp = gen_input(&mut c.rng, c.tier, &Mix::ALL);
     inp.spec.install();
     let cfg = random_cfg(&mut c.rng, &inp);
@@ -313,4 +343,82 @@ fn plain_run(mut src: ScriptedRead, cfg: &RCfg, len: usize, fault: Option<(usize
     }
     let reads = it.get_ref().call;
     Plain { oks, first_err, caught, reads }
+}
+
+// ---------------------------------------------------------------- long-run / deep-nesting probes
+
+/// Specification with a self-nesting master: Root, Root/(0-)/Rec (master), Root/(0-)/Rec leaf U.
+pub fn recursive_spec() -> crate::spec::Spec {
+    use crate::spec::{Elem, Ty, CRC_ID, PP, VOID_ID};
+    let e = |name: &str, id, ty, path| Elem { id, ty, path, name: name.to_string() };
+    crate::spec::Spec {
+        name: "RECURSIVE".into(),
+        elems: vec![
+            e("Root", 0x1A45DFA3, Ty::Master, vec![]),
+            e("Rec", 0xA0, Ty::Master, vec![PP::Id(0x1A45DFA3), PP::Glob(Some(0), None)]),
+            e("Val", 0xD7, Ty::U, vec![PP::Id(0x1A45DFA3), PP::Glob(Some(0), None)]),
+            e("Sib", 0xAE, Ty::Master, vec![PP::Id(0x1A45DFA3)]),
+            e("SibVal", 0xB0, Ty::U, vec![PP::Id(0x1A45DFA3), PP::Id(0xAE)]),
+            e("Crc32", CRC_ID, Ty::B, vec![PP::Glob(Some(1), None)]),
+            e("Void", VOID_ID, Ty::B, vec![PP::Glob(None, None)]),
+        ],
+    }
+}
+
+/// (name, bytes, buffered ids, expected number of Ok items) — long runs of siblings and deep nesting
+pub fn long_run_probe(which: u64, n: usize) -> (String, Vec<u8>, Vec<u64>, usize) {
+    use crate::refcodec::{enc_unknown_size, enc_vint, id_bytes};
+    let mut b = Vec::new();
+    b.extend(id_bytes(0x1A45DFA3));
+    b.extend(enc_unknown_size(8));
+    match which {
+        0 | 1 => {
+            // n sibling masters Sib{SibVal}, known (0) or unknown (1) size, Sib buffered
+            for _ in 0..n {
+                b.extend(id_bytes(0xAE));
+                if which == 0 {
+                    b.extend(enc_vint(3, 1));
+                } else {
+                    b.extend(enc_unknown_size(1));
+                }
+                b.extend([0xB0, 0x81, 0x07]);
+            }
+            (format!("{} buffered sibling masters ({} size)", n, if which == 0 { "known" } else { "unknown" }), b, vec![0xAE], 2 + n)
+        }
+        _ => {
+            // n nested known-size Rec masters around one leaf: headers computed inside-out
+            let mut headers: Vec<Vec<u8>> = Vec::with_capacity(n);
+            let mut content = 3usize;
+            for _ in 0..n {
+                let mut h = id_bytes(0xA0);
+                h.extend(enc_vint(content as u64, crate::refcodec::min_size_width(content as u64).unwrap()));
+                content += h.len();
+                headers.push(h);
+            }
+            for h in headers.iter().rev() {
+                b.extend_from_slice(h);
+            }
+            b.extend([0xD7, 0x81, 0x07]);
+            if which == 2 {
+                (format!("{} nested known-size masters, unbuffered", n), b, vec![], 2 + 2 * n + 1)
+            } else {
+                (format!("{} nested known-size masters inside a buffered Root", n), b, vec![0x1A45DFA3], 1)
+            }
+        }
+    }
+}
+
+/// Body of `vmon probe-deep`: parse probe `which` at nesting depth `n`, return the number of Ok items.
+pub fn deep_probe_body(which: u64, n: usize) -> usize {
+    let spec = recursive_spec();
+    spec.install();
+    let (_name, bytes, buffered, _expect) = long_run_probe(which, n);
+    let cfg = RCfg { allow: 0, buffered, capacity: None, max_size: MaxSz::Set(Some(1 << 24)), eof_end: true };
+    let mut it = make_iter(&bytes[..], &cfg);
+    let mut n_ok = 0;
+    while let Some(Ok(t)) = it.next() {
+        n_ok += 1;
+        std::mem::forget(t);
+    }
+    n_ok
 }
